@@ -183,6 +183,11 @@ def run_scenario(sc):
         obs['ledger'] = dict(S.ledger)
         obs['main_points'] = S.threads[0].points
         obs['points'] = {t.role: t.points for t in S.threads[:40]}
+        if sc.get('want_aproto'):
+            try:
+                obs['aproto'] = extract_aproto(S.trace)
+            except Exception as e:  # noqa
+                obs['aproto_error'] = repr(e)
         # life of every worker instance in scheduling steps (start .. the step at which it finished or was killed; None: still alive)
         obs['lifetimes'] = [(t.role, getattr(t, 'start_step', None), getattr(t, 'end_step', None)) for t in S.threads if str(t.role).startswith('Worker-')][:200]
         if sc.get('keep_trace'):
@@ -309,6 +314,102 @@ def extract_kill(trace, i0, i1):
             if key is not None:
                 out[key].append('d')
     return {k: v for k, v in out.items() if 'k' in v}
+
+
+def extract_aproto(trace):
+    """events of a pool used through apply only (vocabulary of Model/ApplyProto.lean), from the whole trace.
+    Returns (events, submits) where submits lists the job ids in submission order.
+    Two normalisations (the model's `timeoutProc` and `handle` are atomic):
+      * the timeout scan sends the kill signal and THEN sets the job: when the signal interrupts the function (the worker
+        never reports that job) the model event is placed at the signal; otherwise it is a `timeoutOnly` at the set;
+      * the results handler takes a result off the queue and THEN sets the job: the model event is placed at the set; when
+        the job was settled in between (by the timeout scan) the handler finds it gone and sets nothing — the model event
+        is then placed right after that other set."""
+    def is_task(item):
+        return isinstance(item, (tuple, list)) and len(item) == 2 and isinstance(item[0], int) and not isinstance(item[0], bool) \
+            and item[0] >= 1 and isinstance(item[1], (tuple, list)) and len(item[1]) == 2 and callable(item[1][0])
+    evs, submits = [], []
+    hand, settled, popped, interrupted = {}, set(), [], set()
+    reports = []        # (position, job): a worker puts the result of that job on the results queue
+    for i, rec in enumerate(trace):
+        if rec[3] == 'q.put' and rec[4] == 'rq' and str(rec[2]).startswith('Worker-'):
+            try:
+                for (job, success, _r) in rec[5][1]:
+                    if isinstance(job, int) and job >= 1:
+                        reports.append((i, job))
+            except Exception:
+                pass
+    in_rq = []
+    rh_sets = [(i, rec[4]) for i, rec in enumerate(trace) if rec[3] == 'settle' and str(rec[2]) == 'results_handler']
+    for i, rec in enumerate(trace):
+        role, kind = str(rec[2]), rec[3]
+        if kind == 'q.put' and isinstance(rec[4], str) and rec[4].startswith('tq[') and role == 'main' and is_task(rec[5]):
+            k = int(rec[4][3:-1])
+            evs.append('s:%d:%d' % (rec[5][0], k))
+            submits.append(rec[5][0])
+        elif kind == 'q.get' and isinstance(rec[4], str) and rec[4].startswith('tq[') and role.startswith('Worker-') and is_task(rec[5]):
+            k = int(rec[4][3:-1])
+            evs.append('t:%d' % k)
+            hand[k] = rec[5][0]
+        elif kind == 'q.put' and rec[4] == 'rq' and role.startswith('Worker-'):
+            try:
+                items = rec[5][1]
+            except Exception:
+                continue
+            for (job, success, _r) in items:
+                if isinstance(job, int) and job >= 1:
+                    k = int(role.split('-')[1])
+                    evs.append('f:%d:%d' % (k, 1 if success else 0))
+                    hand.pop(k, None)
+                    in_rq.append(job)
+        elif kind == 'q.get' and rec[4] == 'rq' and role == 'results_handler':
+            try:
+                items = rec[5][1]
+            except Exception:
+                continue
+            for (job, success, _r) in items:
+                if isinstance(job, int) and job >= 1:
+                    if job in settled and not any(j == job and pos > i for pos, j in rh_sets):
+                        evs.append('h')         # the handler finds the job gone and sets nothing: dropped
+                        if job in in_rq:
+                            in_rq.remove(job)
+                    else:
+                        popped.append(job)
+        elif kind == 'os.kill' and role == 'timeout_handler' and rec[5] == 10 and str(rec[4]).startswith('Worker-'):
+            k = int(str(rec[4]).split('-')[1])
+            job = hand.get(k)
+            if job is not None and job not in settled and not any(j == job and pos > i for pos, j in reports):
+                evs.append('p:%d' % k)
+                hand.pop(k, None)
+                interrupted.add(job)
+                settled.add(job)
+        elif kind == 'settle' and isinstance(rec[4], int) and rec[4] >= 1:
+            job = rec[4]
+            if role == 'results_handler':
+                evs.append('h')
+                if job in popped:
+                    popped.remove(job)
+                if job in in_rq:
+                    in_rq.remove(job)
+            elif role == 'timeout_handler':
+                if job in interrupted or job in settled:
+                    continue
+                evs.append('o:%d' % job)
+                if job in popped and not any(j == job and pos > i for pos, j in rh_sets):
+                    # the results handler holds this result and will find the job gone
+                    popped.remove(job)
+                    evs.append('h')
+                    if job in in_rq:
+                        in_rq.remove(job)
+            elif role == 'unexpected_death_handler':
+                holder = [k for k, j in hand.items() if j == job]
+                if holder:
+                    evs.append('d:%d' % holder[0])
+                    hand.pop(holder[0], None)
+                else:
+                    evs.append('x:%d' % job)      # outside the model (the dead worker did not hold the job it is blamed for)
+            settled.add(job)
+    return evs, submits
 
 
 def extract_disp(trace, i0, i1, op):
